@@ -137,6 +137,11 @@ func OHealthExact(w *World) error {
 	base := &World{T: w.T, Ledger: L, Addr: w.Addr, Digests: w.Digests, KeyOf: w.KeyOf}
 	base.St = NewStorage(L)
 	base.Conts = cloneConts(w.Conts)
+	for _, c := range base.Conts {
+		if c.SID.HasTempAddress() && c.Parent == nil {
+			base.markDead(c) // never written, by design: not part of the committed storage
+		}
+	}
 	wk := base.DoWalk()
 	if len(wk.Broken) > 0 {
 		return fmt.Errorf("harness: healthy state has broken references: %s", wk.Broken[0])
@@ -203,10 +208,23 @@ func OHealthExact(w *World) error {
 		if err := w.St.BatchPreload(ids, 1); err != nil {
 			return violf("preload into the history's own storage: %v", err)
 		}
-		if len(w.LiveRoots()) == n {
-			// (containers at the temporary address stay in the write set by design and would count as roots)
-			if err := checkHealthy(w.St, "the history's own storage after commit"); err != nil {
-				return err
+		// containers at the temporary address are never written; they stay in the write set, are part of
+		// the storage the check iterates over, and are roots like any other
+		all := w.LiveRoots()
+		got, err := atree.CheckStorageHealth(w.St, len(all))
+		if err != nil {
+			return violf("the history's own storage after commit: CheckStorageHealth fails on a healthy storage (%d live roots, %d at the temporary address): %v", len(all), len(all)-n, err)
+		}
+		want := map[atree.SlabID]bool{}
+		for _, c := range all {
+			want[c.SID] = true
+		}
+		if len(got) != len(want) {
+			return violf("the history's own storage after commit: CheckStorageHealth returns %d roots, want %d", len(got), len(want))
+		}
+		for id := range got {
+			if !want[id] {
+				return violf("the history's own storage after commit: CheckStorageHealth returns %s as a root", id)
 			}
 		}
 	}
@@ -428,7 +446,7 @@ func init() {
 			d = 5
 		}
 		specs = append(specs,
-			Spec{Name: "health-mixed-T256", Kind: "mixed", T: 256, L: 3, Keys: 2, Classes: []string{"t", "limA+", "A:limA-,limA-", "A:t"}, Oracles: orEv, Depth: d},
+			Spec{Name: "health-mixed-T256", Kind: "mixed", T: 256, L: 3, Keys: 2, Classes: []string{"t", "limA+", "A:limA-,limA-", "A:t"}, Oracles: orEv, Depth: d, Extra: map[string]int{"temp": 1}},
 			Spec{Name: "health-wrapped-T256", Kind: "mixed", T: 256, L: 2, Keys: 2, Classes: []string{"s:limA+", "s:A:limA-,limA-", "ss:A:limA-,limA-", "s:M:limM,limM"}, Oracles: or, Depth: d},
 			Spec{Name: "health-split-T256", Kind: "mixed", T: 256, L: 5, Keys: 4, Classes: []string{"limM", "t"}, Oracles: orEv, Depth: d + 2},
 		)
